@@ -579,7 +579,7 @@
     }
 
     // ================================================================================== ptr_map twin and tag algebra (both cfg builds)
-    // @h props=C02,C16 tier=quick group=tags note=ptr_map_equals_the_integer_function_for_all_addresses
+    // @h props=C01,C02,C03,C08,C16 tier=quick group=tags note=ptr_map_equals_the_integer_function_for_all_addresses
     #[kani::proof]
     pub fn ptr_map_twin() {
         let a: usize = kani::any();
